@@ -254,7 +254,8 @@ Qed.
 (* every id the saver builds has this shape; t = "As-Is" or "k/n" *)
 Definition key_of (run t : string) : string := run ++ " Solution (" ++ t ++ ")".
 
-Definition tag_ok (t : string) : bool := negb (t =? "")%string && no_nl t && negb (char_in " "%char t).
+Definition tag_ok (t : string) : bool :=
+  negb (t =? "")%string && no_nl t && negb (char_in " "%char t) && negb (char_in "("%char t) && negb (char_in ")"%char t).
 
 Lemma as_is_id_key : forall run, as_is_id run = key_of run "As-Is".
 Proof. reflexivity. Qed.
@@ -268,21 +269,34 @@ Proof. reflexivity. Qed.
 Lemma tag_ok_as_is : tag_ok "As-Is" = true.
 Proof. reflexivity. Qed.
 
+Lemma char_in_frac_tag : forall c k n, is_digit c = false -> Ascii.eqb "/" c = false -> char_in c (dec k ++ "/" ++ dec n) = false.
+Proof.
+  intros c k n Hd Hs. rewrite char_in_app. cbn [append char_in]. rewrite Hs.
+  now rewrite (all_digits_char_in c (dec k)), (all_digits_char_in c (dec n)) by auto using dec_digits.
+Qed.
+
 Lemma tag_ok_frac : forall k n, tag_ok (dec k ++ "/" ++ dec n) = true.
 Proof.
-  intros k n. unfold tag_ok. apply andb_true_iff; split; [apply andb_true_iff; split|].
+  intros k n. unfold tag_ok. repeat (apply andb_true_iff; split).
   - destruct (dec k) eqn:E; [now apply dec_nonempty in E | reflexivity].
-  - unfold no_nl. rewrite char_in_app. cbn [append char_in].
-    now rewrite (all_digits_char_in nl (dec k)), (all_digits_char_in nl (dec n)) by auto using dec_digits.
-  - rewrite char_in_app. cbn [append char_in].
-    now rewrite (all_digits_char_in " "%char (dec k)), (all_digits_char_in " "%char (dec n)) by auto using dec_digits.
+  - unfold no_nl. now rewrite char_in_frac_tag.
+  - now rewrite char_in_frac_tag.
+  - now rewrite char_in_frac_tag.
+  - now rewrite char_in_frac_tag.
 Qed.
 
 Lemma tag_ok_spec : forall t, tag_ok t = true -> t <> "" /\ no_nl t = true /\ char_in " "%char t = false.
 Proof.
-  intros t H. unfold tag_ok in H. apply andb_true_iff in H as [H H3]. apply andb_true_iff in H as [H1 H2].
+  intros t H. unfold tag_ok in H. apply andb_true_iff in H as [H _]. apply andb_true_iff in H as [H _].
+  apply andb_true_iff in H as [H H3]. apply andb_true_iff in H as [H1 H2].
   repeat split; [| exact H2 | now apply negb_true_iff in H3].
   intros ->. discriminate.
+Qed.
+
+Lemma tag_ok_parens : forall t, tag_ok t = true -> char_in "("%char t = false /\ char_in ")"%char t = false.
+Proof.
+  intros t H. unfold tag_ok in H. apply andb_true_iff in H as [H H5]. apply andb_true_iff in H as [_ H4].
+  split; now apply negb_true_iff.
 Qed.
 
 Lemma no_nl_key : forall run t, no_nl run = true -> no_nl t = true -> no_nl (key_of run t) = true.
@@ -303,15 +317,61 @@ Proof.
   rewrite <- (Hb t Hne). unfold key_of. now rewrite !app_assoc_s.
 Qed.
 
-(* set.Summary.FileNameSafeId likewise *)
-Lemma file_stem_key : forall run, no_nl run = true -> exists v, forall t, tag_ok t = true -> file_stem (key_of run t) = v.
+(* a pattern containing a byte that s does not contain does not occur in s *)
+Lemma starts_with_split0 : forall p s, starts_with p s = true -> exists t, s = p ++ t.
 Proof.
-  intros run Hr. destruct (replace_lit_tail "Solution(" "" (remove_char " " run)) as [b Hb].
-  exists (replace_char "/" "_of_" (b ++ "")). intros t Ht. apply tag_ok_spec in Ht as (Hne & Hnl & Hsp).
-  unfold file_stem. rewrite per_line_no_nl by (apply no_nl_remove_char; now apply no_nl_key).
-  f_equal. rewrite <- (Hb t Hne). unfold key_of.
-  rewrite !remove_char_app. rewrite (remove_char_absent _ t Hsp). reflexivity.
+  induction p as [|x p IH]; intros s H; [now exists s|].
+  destruct s as [|y s]; [discriminate|]. cbn in H. apply andb_true_iff in H as [E H].
+  apply Ascii.eqb_eq in E. subst y. destruct (IH s H) as [t ->]. now exists t.
 Qed.
+
+Lemma contains_needs_char : forall c p s, char_in c p = true -> char_in c s = false -> contains p s = false.
+Proof.
+  intros c p. induction s as [|y s IH]; intros Hp Hs.
+  - cbn. destruct p; [discriminate | reflexivity].
+  - cbn [contains]. cbn [char_in] in Hs. apply orb_false_iff in Hs as [Hy Hs']. rewrite (IH Hp Hs'), orb_false_r.
+    destruct (starts_with p (String y s)) eqn:E; [|reflexivity].
+    apply starts_with_split0 in E as [t E]. assert (X : char_in c (String y s) = true) by (rewrite E, char_in_app, Hp; reflexivity).
+    cbn [char_in] in X. now rewrite Hy, Hs' in X.
+Qed.
+
+Lemma marker_body_tag : forall t, char_in "("%char t = false -> char_in ")"%char t = false -> marker_body (t ++ ")") = true.
+Proof.
+  induction t as [|c t IH]; intros H1 H2; [reflexivity|].
+  cbn [char_in] in H1, H2. apply orb_false_iff in H1 as [A1 B1]. apply orb_false_iff in H2 as [A2 B2].
+  specialize (IH B1 B2). cbn [append]. destruct (t ++ ")") as [|a u] eqn:E; [destruct t; discriminate|].
+  change (marker_body (String c (String a u))) with (negb (Ascii.eqb c "(") && negb (Ascii.eqb c ")") && marker_body (String a u)).
+  now rewrite A1, A2, IH.
+Qed.
+
+(* the marker that ends a key is its LAST "Solution(" *)
+Lemma split_last_marker : forall R t, char_in "("%char t = false ->
+  split_last "Solution(" (R ++ "Solution(" ++ t ++ ")") = Some (R, t ++ ")").
+Proof.
+  intros R t Ht.
+  assert (N : contains "Solution(" (t ++ ")") = false).
+  { apply (contains_needs_char "("%char); [reflexivity|]. rewrite char_in_app, Ht. reflexivity. }
+  assert (E : split_last "Solution(" ("Solution(" ++ t ++ ")") = Some ("", t ++ ")")).
+  { change ("Solution(" ++ t ++ ")") with (String "S" ("olution(" ++ t ++ ")")). cbn [split_last].
+    rewrite split_last_none; [|discriminate|].
+    - change (String "S" ("olution(" ++ t ++ ")")) with ("Solution(" ++ (t ++ ")")).
+      now rewrite starts_with_refl, drop_length_app.
+    - cbn [append contains starts_with]. cbn [Ascii.eqb Bool.eqb andb orb]. exact N. }
+  rewrite (split_last_app _ R _ _ _ E). now rewrite app_nil_r_s.
+Qed.
+
+(* set.Summary.FileNameSafeId likewise, for EVERY run id: the stem is the run id without spaces, "/" spelled "_of_" *)
+Lemma file_stem_key_eq : forall run t, tag_ok t = true ->
+  file_stem (key_of run t) = replace_char "/" "_of_" (remove_char " " run).
+Proof.
+  intros run t Ht. destruct (tag_ok_parens t Ht) as [P1 P2]. apply tag_ok_spec in Ht as (Hne & Hnl & Hsp).
+  unfold file_stem, key_of. rewrite !remove_char_app, (remove_char_absent _ t Hsp).
+  change (remove_char " " " Solution (") with "Solution(". change (remove_char " " ")") with ")".
+  unfold strip_final_marker. rewrite (split_last_marker _ _ P1), (marker_body_tag _ P1 P2). reflexivity.
+Qed.
+
+Lemma file_stem_key : forall run, no_nl run = true -> exists v, forall t, tag_ok t = true -> file_stem (key_of run t) = v.
+Proof. intros run _. eexists. intros t Ht. now apply file_stem_key_eq. Qed.
 
 Lemma contains_space_solution : forall t, char_in " "%char t = false ->
   contains " Solution" ("Solution (" ++ t ++ ")") = false.
@@ -976,15 +1036,7 @@ Proof.
 Qed.
 
 Lemma file_stem_key_all : forall run, exists v, forall t, tag_ok t = true -> file_stem (key_of run t) = v.
-Proof.
-  intros run. destruct (lines_app_tail (remove_char " " run)) as (init & lastl & _ & H).
-  destruct (replace_lit_tail "Solution(" "" lastl) as [b Hb].
-  eexists. intros t Ht. apply tag_ok_spec in Ht as (Hne & Hnl & Hsp).
-  unfold file_stem, per_line, key_of. rewrite !remove_char_app, (remove_char_absent _ t Hsp).
-  change (remove_char " " " Solution (") with "Solution(". change (remove_char " " ")") with ")".
-  rewrite H by (now apply (tail_no_nl "Solution(")).
-  rewrite map_app. cbn [map]. rewrite (Hb t Hne). reflexivity.
-Qed.
+Proof. intros run. eexists. intros t Ht. now apply file_stem_key_eq. Qed.
 
 Lemma json_set_name_key_all : forall run, exists v, forall t, tag_ok t = true -> json_set_name (key_of run t) = Ok v.
 Proof.
@@ -1074,10 +1126,37 @@ Lemma set_id_src : forall key,
 Proof. intros. split; reflexivity. Qed.
 
 Lemma file_stem_src : forall key,
-  regex_lit_dots_rparen "Solution(" = src_file_stem_regex
-  /\ file_stem key = replace_char "/" "_of_" (per_line (replace_lit_dots_rparen "Solution(" "") (remove_char " " key))
-  /\ src_file_stem_lits = [" "; ""; regex_lit_dots_rparen "Solution("; ""; "/"; "_of_"].
+  regex_lit_final_marker "Solution(" = src_file_stem_regex
+  /\ file_stem key = replace_char "/" "_of_" (strip_final_marker "Solution(" (remove_char " " key))
+  /\ src_file_stem_lits = [" "; ""; regex_lit_final_marker "Solution("; ""; "/"; "_of_"].
 Proof. intros. repeat split; reflexivity. Qed.
 
 Lemma json_set_name_src : "(.*)" ++ " Solution" ++ ".*" = src_json_name_regex.
 Proof. reflexivity. Qed.
+
+(* ------------------------------------------------------------------------------------------------------------ *)
+(* one summary file per run (used by C19): with more than one run the file stems of two runs differ, for EVERY scenario name *)
+
+Lemma summary_stem_as_is : forall run, file_stem (as_is_id run) = replace_char "/" "_of_" (remove_char " " run).
+Proof. intros run. rewrite as_is_id_key. apply file_stem_key_eq. exact tag_ok_as_is. Qed.
+
+Lemma stem_of_frac : forall r R,
+  replace_char "/" "_of_" (remove_char " " (frac r R)) = "(" ++ dec r ++ "_of_" ++ dec R ++ ")".
+Proof.
+  intros r R. rewrite remove_char_absent by (rewrite char_in_frac; reflexivity).
+  assert (D : forall n, replace_char "/" "_of_" (dec n) = dec n)
+    by (intro n; apply replace_char_absent, all_digits_char_in; [reflexivity | apply dec_digits]).
+  unfold frac. change ("(" ++ dec r ++ "/" ++ dec R ++ ")") with (String "(" (dec r ++ String "/" (dec R ++ ")"))).
+  cbn [replace_char Ascii.eqb Bool.eqb andb]. rewrite replace_char_app, D.
+  cbn [replace_char Ascii.eqb Bool.eqb andb]. rewrite replace_char_app, D. reflexivity.
+Qed.
+
+Lemma summary_stem_inj : forall name R r1 r2, (1 < effective_runs R) ->
+  file_stem (as_is_id (run_id name R r1)) = file_stem (as_is_id (run_id name R r2)) -> r1 = r2.
+Proof.
+  intros name R r1 r2 HR H. rewrite !summary_stem_as_is in H. unfold run_id, clone_id in H.
+  apply Nat.ltb_lt in HR. rewrite HR in H.
+  rewrite <- !app_assoc_s in H. rewrite !remove_char_app, !replace_char_app in H.
+  apply app_inv_head_s in H. rewrite !stem_of_frac in H. cbn [append] in H. injection H as H.
+  apply digits_sep_inj in H as [H _]; auto using dec_digits. now apply dec_inj.
+Qed.
